@@ -73,6 +73,8 @@ def gen_plan(rng, tier, index):
             'cv_gen': rng.pick(['sets_k_fold', 'sets_k_fold_pattern', 'sets_k_fold_rdm', 'sets_leave_one_out_rdm',
                                 'sets_leave_one_out_pattern', 'sets_random', 'sets_of_k_pattern']),
             'cv_random': rng.chance(0.6), 'k': rng.randint(1, 3)}
+    if 'pos' in spec['pat_desc'] and rng.chance(0.5):
+        opts['pat_desc'] = 'pos'
     opts['use_correction'] = rng.chance(0.5) and opts['n_cv'] > 1
     kinds = rng.subset(RANDINT_FAULTS + SHUFFLE_FAULTS, 0.3, 1.0)
     return {'routine': routine, 'spec': spec, 'method': method, 'models': models, 'opts': opts,
